@@ -164,6 +164,9 @@ func tAttrName(c context, s []byte) (context, int) {
 	} else if i != len(s) {
 		c.state = stateAfterName
 	}
+	if i > 0 {
+		c.attr.nameSplit = true
+	}
 	return c, i
 }
 
